@@ -408,6 +408,8 @@ func runC06(r *core.Run) {
 			return core.Outcome{Class: c.Entry, Nontrivial: true, Evals: 2}
 		})
 
+	interleavedReaders(r)
+
 	lo, hi := core.Pick(r, 4000, 3000), core.Pick(r, 4200, 9000)
 	r.Bound("gz-member-boundaries", fmt.Sprintf("three-member .gz files per format: the first member ends at every compressed offset %d..%d%s, the second is 4096 or 4097 bytes long (so a boundary at a multiple of 4096 is followed by another one / by none)", lo, hi, core.Pick(r, "", " and 65500..65600")))
 	core.Clause(r, "gz-member-boundaries", core.Opts{Rule: "a .gz file is a series of gzip members (RFC 1952; what cat a.gz b.gz and bgzip produce): wherever the member boundaries fall in the compressed file, File(path) yields what Reader yields on the concatenated contents; non-trivial = all"},
